@@ -21,6 +21,7 @@ RULE = ('covering set: every subpacket type 0..127 x critical bit x body classes
         'otherwise) must not verify. Non-trivial: accepted signature with >=1 hashed subpacket other than creation time/issuer; distinct by '
         '(type, critical, length-encoding class, body class).')
 RULE += ' The four fixed octets (version, type, public-key algorithm, hash algorithm) are flipped bit by bit in every case; signers include DSA and an RSA key published under algorithm id 3.'
+RULE += ' Preference lists also name algorithm ids without an enum member (private use 100-110, later assignments); fingerprint subpackets of other key versions; revocation reasons and revoker algorithms outside the named codes.'
 ASSUMPTIONS = ['a 0.5 s watchdog abandons (and counts) bit flips that make PGPy loop over a multi-gigabyte declared subpacket length; hangs are outside the listed properties',
                'the reference signer produces the signatures, so PGPy only acts as verifier', 'rejection at parse is an outcome, not a failure, except for '
                'the classes the statement names (unknown types, unknown flag bits, text, booleans, legal length encodings), where it is reported as '
